@@ -190,7 +190,8 @@ def main():
                     mm = __import__("re").search(r"\.np(\d+)\.ops$", f)
                     if mm:
                         npv = int(mm.group(1))
-                    batches.append(dict(replay=os.path.join(cdir, f), np=npv, tag="corpus_" + f[:-4]))
+                    batches.append(dict(replay=os.path.join(cdir, f), np=npv, tag="corpus_" + f[:-4],
+                                        timeout=getattr(cfg, "CORPUS_TIMEOUT", 300)))
         for b in cfg.batches(tier, seed):
             batches.append(b)
         for bi, b in enumerate(batches):
